@@ -205,8 +205,8 @@ def observed(note) -> dict:
         "zid": note.zid,
         "create": note.create_date,
         "modify": note.modify_date,
-        "tags": {"areas": note.areas, "contexts": note.contexts, "people": note.people, "projects": note.projects},
-        "links": note.links,
+        "tags": {"areas": sorted(note.areas), "contexts": sorted(note.contexts), "people": sorted(note.people), "projects": sorted(note.projects)},
+        "links": sorted(note.links),
         "props": dict(note.properties),
     }
 
@@ -255,7 +255,8 @@ def rand_deco(rng, p=0.5, with_date=True) -> Deco:
 
 def rand_zid(rng) -> str:
     d = rng.choice(DATES)
-    return d.strftime("%y%m%d") + "#" + "".join(rng.choice(ZCH) for _ in range(rng.choice([2, 2, 3])))
+    # first character from the upper half of the alphabet: never collides with what a fresh allocator hands out first
+    return d.strftime("%y%m%d") + "#" + rng.choice(ZCH[26:]) + "".join(rng.choice(ZCH) for _ in range(rng.choice([1, 1, 2])))
 
 
 def rand_item(rng, allow_comment=True) -> Item:
